@@ -22,6 +22,22 @@ type parserModel struct {
 	countSt []fieldStoreSite
 	// entry points: exported functions of package parser returning (*ast.XDocument, error)
 	eps []*ssa.Function
+	// roles: the look-ahead slot may live in the parser struct under its usual names or, regrouped, in a struct it
+	// embeds; each role is resolved to (struct type, field name) from what peek() does with ReadToken's results
+	roles map[string]fieldRef
+}
+
+type fieldRef struct {
+	st *types.Named
+	f  string
+}
+
+// stores: the stores to the field that plays the role.
+func (m *parserModel) stores(role string) []fieldStoreSite {
+	if r, ok := m.roles[role]; ok {
+		return storesToField(m.fns, r.st, r.f)
+	}
+	return storesToField(m.fns, m.T, role)
 }
 
 func newParserModel(p *Program) *parserModel {
@@ -38,14 +54,77 @@ func newParserModel(p *Program) *parserModel {
 	for i := 0; st != nil && i < st.NumFields(); i++ {
 		have[st.Field(i).Name()] = true
 	}
-	for _, n := range need {
-		if !have[n] {
-			m.lost = append(m.lost, "field parser."+n)
-		}
-	}
+	m.roles = map[string]fieldRef{}
 	m.read = p.Func("lexer.(*Lexer).ReadToken")
 	if m.read == nil {
 		m.lost = append(m.lost, "lexer.(*Lexer).ReadToken")
+	}
+	// the look-ahead roles by use: in a function that calls ReadToken and does not count tokens, the fields that
+	// receive its two results, and the bool field set to true next to them
+	if !have["peeked"] || !have["peekToken"] || !have["peekError"] {
+		counts := map[*ssa.Function]bool{}
+		for _, s := range storesToField(m.fns, m.T, "tokenCount") {
+			counts[s.fn] = true
+		}
+		for _, fn := range m.fns {
+			if counts[fn] || m.read == nil {
+				continue
+			}
+			allInstrs(fn, func(in ssa.Instruction) {
+				call, ok := in.(*ssa.Call)
+				if !ok || call.Call.StaticCallee() != m.read || call.Referrers() == nil {
+					return
+				}
+				for _, ref := range *call.Referrers() {
+					ex, ok := ref.(*ssa.Extract)
+					if !ok || ex.Referrers() == nil {
+						continue
+					}
+					for _, r2 := range *ex.Referrers() {
+						stt, ok := r2.(*ssa.Store)
+						if !ok || stt.Val != ssa.Value(ex) {
+							continue
+						}
+						fa, ok := stt.Addr.(*ssa.FieldAddr)
+						if !ok {
+							continue
+						}
+						n, f, _, _ := fieldOf(fa)
+						if n == nil {
+							continue
+						}
+						if ex.Index == 0 {
+							m.roles["peekToken"] = fieldRef{n, f}
+						} else {
+							m.roles["peekError"] = fieldRef{n, f}
+						}
+					}
+				}
+				// the flag: a bool field of the same struct stored true in this function
+				if r, ok := m.roles["peekToken"]; ok {
+					allInstrs(fn, func(in2 ssa.Instruction) {
+						stt, ok := in2.(*ssa.Store)
+						if !ok {
+							return
+						}
+						cst, ok := stt.Val.(*ssa.Const)
+						if !ok || cst.Value == nil || cst.Value.String() != "true" {
+							return
+						}
+						if fa, ok := stt.Addr.(*ssa.FieldAddr); ok {
+							if n, f, _, _ := fieldOf(fa); n != nil && sameNamed(n, r.st) {
+								m.roles["peeked"] = fieldRef{n, f}
+							}
+						}
+					})
+				}
+			})
+		}
+	}
+	for _, n := range need {
+		if _, byRole := m.roles[n]; !have[n] && !byRole {
+			m.lost = append(m.lost, "field parser."+n)
+		}
 	}
 	m.countSt = storesToField(m.fns, m.T, "tokenCount")
 	fset := map[*ssa.Function]bool{}
@@ -63,7 +142,7 @@ func newParserModel(p *Program) *parserModel {
 		m.lost = append(m.lost, "the function that advances the token count (parser.next)")
 	}
 	pset := map[*ssa.Function]bool{}
-	for _, s := range storesToField(m.fns, m.T, "peekToken") {
+	for _, s := range m.stores("peekToken") {
 		pset[s.fn] = true
 	}
 	if len(pset) == 1 {
@@ -115,10 +194,16 @@ func (m *parserModel) fieldAddr(v ssa.Value, name string) bool {
 		return false
 	}
 	n, f, _, _ := fieldOf(fa)
+	if r, ok := m.roles[name]; ok {
+		return n != nil && sameNamed(n, r.st) && f == r.f
+	}
 	return n != nil && sameNamed(n, m.T) && f == name
 }
 
 func (m *parserModel) load(v ssa.Value, name string) bool {
+	if r, ok := m.roles[name]; ok {
+		return isFieldLoad(v, r.st, r.f)
+	}
 	return isFieldLoad(v, m.T, name)
 }
 
